@@ -11,7 +11,7 @@ META = dict(
          "observable at any tick is a violation. Families: frame forests with transitions/under overrides/conditional auxiliaries, guarded "
          "forests with shared original auxiliaries, plain-auxiliary slot assignments with done-conditions, conditional-auxiliary placements, "
          "clock grids (timeout/repeat/forced re-entry, binary and decimal ticks), bid timing and fiat sequences, marker programs with "
-         "front/back writes, clone/rear/raze programs, and a pairwise feature-interaction family (every pair of 33 item templates - transitions, clocks, guards, plain/conditional auxiliaries, bids, fiats, store writes and conditions, done - on every frame of a fork, started in the primary or non-primary branch). Quick tier uses the smaller bound of each family; thorough the full bounds.",
+         "front/back writes, clone/rear/raze programs, and a pairwise feature-interaction family (every pair of 38 item templates - transitions, clocks, guards, plain/conditional auxiliaries, bids, fiats, store writes and conditions, done - on every frame of a fork, started in the primary or non-primary branch). Quick tier uses the smaller bound of each family; thorough the full bounds.",
     note="Agreement shows ioflo is consistent with the documented design as transcribed in DESIGN appendix A (no manual is available offline), not that the design is right. traces_validated_against_impl = number of real executions compared.",
 )
 from mc import core
@@ -117,7 +117,8 @@ def on_prog(p, idx, label, prog, meta):
             p.sample(dict(label=label, script=text))
         return
     if kind == "pairs":
-        runner.explore_and_check(p, idx, label, prog, cmp=cmp, watch=("v", "c", "w"), canon_paths={"v", "c"}, value_caps={"c": 4},
+        runner.explore_and_check(p, idx, label, prog, cmp=cmp, watch=("v", "c", "w", "s", "t", "g.x", "g.y"), canon_paths={"v", "c", "s", "t", "g.x"},
+                                 value_caps={"c": 4, "s": 5},
                                  depth=8 if core.TIER == "quick" else 10, sample_every=1999)
         return
     if kind == "markers-deep":
